@@ -71,6 +71,11 @@ CHECKS['C11'] = dict(level=MC, engine='Blocking', design='DESIGN.md §3 C11; che
    note='The release time bound is measured (10 s bound on a loaded machine), not proved. Go timer-reuse races and SetReadDeadline during a blocked read are not covered.',
    technique='TLA+ spec with leads-to properties + TLC exhaustive; cover-path staging on real sessions with gate-controlled interleavings and graph conformance')
 
+CHECKS['C13'] = dict(level=MC, engine='EventCodec', design='DESIGN.md §3 C13; checks/eventcodec_NOTES.md',
+   text='EventCodec.tla is a byte-level model of one session\'s receive side (handshake header readers and the established-session event loop: handleEvents, the five handlers, checkEventValid, the connEventHandler window) with one action Deliver(n) per read; TLC checks TypeOK, CutIndependent (any cut sequence gives the same result as one uncut read), ErrorMeansClosed, NoCompleteEventLeft and WindowIsSuffix over a generated catalogue of byte strings (valid, truncated, lengths shorter than the fixed fields or longer than the data, unknown types/versions, wrong direction/phase) and every way of cutting each into reads. Each Deliver edge of the TLC graph is one real read on the REAL code through three executors (a real session pair driven through onReadReady/handleEvents with recover and hang detection; the real handshake functions fed chunk by chunk; child processes running the real Server() and epoll loop with a bystander session that must keep working), comparing closed/shutdownErr, the unconsumed window, the stream table and pending bytes, accept order, counters and the epoch that reached the manager after every read.',
+   note='Events above 64 KiB / buffer resizing are C18; TCP transport and arm64 not covered. Four crash defects found here are fixed in /repo and kept as regression cases.',
+   technique='TLA+ byte-level parser/window spec + TLC over a case catalogue x all cuts; per-read replay on the real parser, handshake and epoll loop with state comparison')
+
 PENDING = {}
 
 def main():
